@@ -25,6 +25,20 @@ Two exhaustive explorations per entry of the accumulator catalogue
     add leaves the other accumulator - aliasing -, result leaves both);
     result() twice gives equal values; the observable results equal those of
     the same history with all result() calls removed.
+
+Null states.  Besides the states above, every entry contributes the states that
+are empty in one component of the accumulator but not in another
+(`_null_states`): E = a fresh state that received one add() of an *empty batch*
+(entries whose domain includes empty batches), N1 / N2 = states built from one /
+two of the entry's *null rows* only (`Entry.null_rows`: rows that advance a
+counter / denominator without contributing to the main table - texts shorter
+than n words, all-NaN rows, rankings without a hit, out-of-range values, zeros).
+Their result() often equals that of a fresh state, so they are only visible as
+merge operands next to ordinary states.  They meet every law of (A): identity
+on both sides, operand snapshot / aliasing in both positions against every
+state, every k = 2 multiset with every state, k = 3 (and 4) multisets with the
+states of few rows; and (B) is run a second / third time with b2 replaced by
+the null batch resp. the empty batch.
 """
 import itertools as itt
 
@@ -45,15 +59,56 @@ def _obs(d, s):
     return acc.Raised('result', ex).plain()
 
 
+# Dataset of the state "fresh, then add() of one empty batch".  (The dataset ()
+# is the fresh state itself: no add() call at all.)
+EMPTY_BATCH = ('<one empty batch>',)
+
+
+def _rows(e, ds):
+  """The rows of a dataset (alphabet / null-row indices, or EMPTY_BATCH)."""
+  return () if ds == EMPTY_BATCH else e.rows(ds)
+
+
 def _build(d, e, idx):
   s = d.fresh()
   if idx:
-    s = d.add(s, e.rows(idx))
+    s = d.add(s, _rows(e, idx))
   return s
 
 
 def _datasets(e, max_rows=2):
   return [tuple(s) for s in enums.sequences(range(len(e.alphabet)), max_rows)]
+
+
+def _null_batch(e):
+  """One batch of the null class: first null row, else the empty batch."""
+  if e.null_rows:
+    return (len(e.alphabet),)
+  return () if e.empty_batch_ok else None
+
+
+def _null_states(e):
+  """States that are empty in one component but not in another: E, N1, N2."""
+  out = []
+  if e.empty_batch_ok:
+    out.append(EMPTY_BATCH)
+  if e.null_rows:
+    n = len(e.alphabet)
+    out.append((n,))
+    out.append((n, n + len(e.null_rows) - 1))
+  return out
+
+
+def _states(e):
+  """Ordinary states first (indices unchanged), then the null states."""
+  dsets = _datasets(e)
+  return dsets, dsets + _null_states(e)
+
+
+def _with_null(pool, k, first_null):
+  """Multisets of k indices from pool with at least one index >= first_null."""
+  return [c for c in itt.combinations_with_replacement(sorted(pool), k)
+          if c[-1] >= first_null]
 
 
 def _leaves(tree):
@@ -85,7 +140,7 @@ def _same(e, a, b, rows):
 def check_trees(st, e, d, dsets):
   """All bracketings x permutations of the merge of the given datasets."""
   k = len(dsets)
-  rows = tuple(r for ds in dsets for r in e.rows(ds))
+  rows = tuple(r for ds in dsets for r in _rows(e, ds))
   cls = e.input_class(rows)
   tail = f':{cls}' if cls else ''
   groups = {}
@@ -120,7 +175,7 @@ def check_trees(st, e, d, dsets):
       st.violation(
           f'C11:{e.signame}:{d.api}:merge-trees:grouping-or-order-changes-result:'
           f'{comp}{tail}',
-          {'case': case, 'datasets': [e.rows(x) for x in dsets], 'tree': tree,
+          {'case': case, 'datasets': [_rows(e, x) for x in dsets], 'tree': tree,
            'result': got, 'other_tree': ref_tree, 'other_result': ref},
           replay=rp)
   for _, got in groups.values():
@@ -128,7 +183,7 @@ def check_trees(st, e, d, dsets):
 
 
 def check_identity(st, e, d, ds):
-  rows = e.rows(ds)
+  rows = _rows(e, ds)
   cls = e.input_class(rows)
   tail = f':{cls}' if cls else ''
   want = _obs(d, _build(d, e, ds))
@@ -155,8 +210,18 @@ def check_identity(st, e, d, ds):
           replay=rp)
 
 
-def check_pair(st, e, d, d1, d2, batches):
+def _followups(e, d1, d2):
+  """Batches of the later add(): b1, b2; + the null batch next to null states."""
+  out = list(_bfs_batches(e))
+  nulls = _null_states(e)
+  if (d1 in nulls or d2 in nulls) and _null_batch(e) is not None:
+    out.append(_null_batch(e))
+  return out
+
+
+def check_pair(st, e, d, d1, d2):
   """x = S(d1), y = S(d2): merge must not damage or alias its operand."""
+  batches = _followups(e, d1, d2)
   rp = {'kind': 'pair', 'entry': e.key, 'api': d.api, 'd1': d1, 'd2': d2}
   case = (e.key, d.api, 'pair', d1, d2)
   st.case(case, nontrivial=bool(d1) and bool(d2))
@@ -171,7 +236,7 @@ def check_pair(st, e, d, d1, d2, batches):
   for comp in acc.diff_components(got_y, want_y):
     st.violation(
         f'C11:{e.signame}:{d.api}:merge-damages-operand:{comp}',
-        {'case': case, 'x_rows': e.rows(d1), 'y_rows': e.rows(d2),
+        {'case': case, 'x_rows': _rows(e, d1), 'y_rows': _rows(e, d2),
          'y_before': want_y, 'y_after_x.merge(y)': got_y}, replay=rp)
   if e.randomized:
     return   # later results of a reservoir are not comparable value by value
@@ -188,7 +253,7 @@ def check_pair(st, e, d, d1, d2, batches):
         st.violation(
             f'C11:{e.signame}:{d.api}:aliasing:operand-update-leaks-into-'
             f'receiver:{comp}',
-            {'case': case, 'x_rows': e.rows(d1), 'y_rows': e.rows(d2),
+            {'case': case, 'x_rows': _rows(e, d1), 'y_rows': _rows(e, d2),
              'then_y_add': e.rows(b), 'x_result_before': want_x,
              'x_result_after': got}, replay=rp)
       # later update of the receiver must not reach the operand
@@ -200,7 +265,7 @@ def check_pair(st, e, d, d1, d2, batches):
         st.violation(
             f'C11:{e.signame}:{d.api}:aliasing:receiver-update-leaks-into-'
             f'operand:{comp}',
-            {'case': case, 'x_rows': e.rows(d1), 'y_rows': e.rows(d2),
+            {'case': case, 'x_rows': _rows(e, d1), 'y_rows': _rows(e, d2),
              'then_x_add': e.rows(b), 'y_result_before': want_y,
              'y_result_after': got}, replay=rp)
     except Exception:  # pylint: disable=broad-except
@@ -219,21 +284,24 @@ def _algebra_unit(item):
   e = acc.entry(key)
   d = e.driver(api)
   st = Stats()
-  dsets = _datasets(e)
+  dsets, states = _states(e)
   if k == 1:
-    for ds in dsets:
+    nulls = states[len(dsets):]
+    for ds in states:
       check_identity(st, e, d, ds)
-    for d1 in dsets:
-      for d2 in dsets:
-        check_pair(st, e, d, d1, d2, _bfs_batches(e))
+    for d1 in states:
+      for d2 in states:
+        check_pair(st, e, d, d1, d2)
     st.sample({'entry': key, 'api': api, 'part': 'identity+operand pairs',
-               'states': len(dsets)})
+               'states': len(dsets),
+               'null_states': [('add(empty batch)' if n == EMPTY_BATCH
+                                else _rows(e, n)) for n in nulls]})
     return st
   for combo in chunk:
-    check_trees(st, e, d, tuple(dsets[i] for i in combo))
+    check_trees(st, e, d, tuple(states[i] for i in combo))
   if chunk:
     st.sample({'entry': key, 'api': api, 'part': f'merge trees k={k}',
-               'example_multiset': [e.rows(dsets[i]) for i in chunk[-1]],
+               'example_multiset': [_rows(e, states[i]) for i in chunk[-1]],
                'trees_per_multiset': sum(1 for _ in enums.merge_trees(k))})
   return st
 
@@ -278,8 +346,20 @@ def _opname(op):
   return f'{op[1]}.result()'
 
 
-def bfs(st, e, d, depth, only_history=None):
-  batches = _bfs_batches(e)
+def _bfs_variants(e):
+  """(variant, batches): b2 replaced by the null batch / the empty batch."""
+  b1 = _bfs_batches(e)[0]
+  out = [('base', tuple(_bfs_batches(e)))]
+  if e.null_rows:
+    out.append(('null', (b1, (len(e.alphabet),))))
+  if e.empty_batch_ok:
+    out.append(('empty', (b1, ())))
+  return out
+
+
+def bfs(st, e, d, depth, only_history=None, variant='base'):
+  batches = dict(_bfs_variants(e))[variant]
+  vkey = () if variant == 'base' else (variant,)
   stripped_obs = {}
 
   def observe_both(s):
@@ -306,7 +386,8 @@ def bfs(st, e, d, depth, only_history=None):
     obs = observe_both(s)
     obs2 = observe_both(s)
     hist = [_opname(o) for o in h]
-    rp = {'kind': 'bfs', 'entry': e.key, 'api': d.api, 'history': h}
+    rp = {'kind': 'bfs', 'entry': e.key, 'api': d.api, 'history': h,
+          'variant': variant}
     base = f'C11:{e.signame}:{d.api}:bfs'
     for v in ('x', 'y'):
       for comp in acc.diff_components(obs2[v], obs[v]):
@@ -357,7 +438,7 @@ def bfs(st, e, d, depth, only_history=None):
       for op in OPS:
         st.transitions += 1
         h2 = h + (op,)
-        st.case((e.key, d.api, 'bfs', h2))
+        st.case((e.key, d.api, 'bfs') + vkey + (h2,))
         r = visit(h2, obs_h)
         if r is None:
           continue
@@ -372,17 +453,18 @@ def bfs(st, e, d, depth, only_history=None):
     frontier = nxt
     if not frontier:
       break
-  st.sample({'entry': e.key, 'api': d.api, 'part': 'bfs', 'depth_bound': depth,
+  st.sample({'entry': e.key, 'api': d.api, 'part': 'bfs', 'variant': variant,
+             'depth_bound': depth,
              'distinct_states': len(seen), 'batches': [e.rows(b) for b in batches],
              'a_deepest_history': [_opname(o) for o in (frontier[-1][0] if frontier
                                                        else ())]})
 
 
 def _bfs_unit(item):
-  key, api, depth = item
+  key, api, depth, variant = item
   e = acc.entry(key)
   st = Stats()
-  bfs(st, e, e.driver(api), depth)
+  bfs(st, e, e.driver(api), depth, variant=variant)
   return st
 
 
@@ -407,36 +489,64 @@ def run(ctx):
   for key, e in cat.items():
     if only and e.name not in only and key not in only:
       continue
-    dsets = _datasets(e)
+    dsets, states = _states(e)
     nd = len(dsets)
+    nulls = list(range(nd, len(states)))
     small = [i for i, ds in enumerate(dsets) if all(r < 2 for r in ds)]
+    one_row = [i for i, ds in enumerate(dsets) if len(ds) <= 1]
     for d in e.drivers():
       alg_units.append((key, d.api, 1, None))
       for k in range(2, kmax + 1):
         if k <= 3:
           combos = list(itt.combinations_with_replacement(range(nd), k))
+          # null states: k = 2 with every state; k = 3 with the states of
+          # <= 1 row (quick) / of <= 2 rows over two alphabet rows (thorough)
+          partners = (range(nd) if k == 2 else
+                      one_row if ctx.quick else sorted(set(one_row + small)))
+          combos += _with_null(list(partners) + nulls, k, nd)
         elif d.api != _primary_api(e):
           continue
         else:   # k = 4: states over the first two alphabet rows only
           combos = list(itt.combinations_with_replacement(small, k))
+          # null states E, N1 with the states of <= 1 row over those rows
+          combos += _with_null([i for i in small if i in one_row] + [
+              i for i in nulls if len(states[i]) == 1], k, nd)
         for chunk in enums.chunks(combos, max(1, len(combos) // 150)):
           alg_units.append((key, d.api, k, chunk))
-    bfs_units.append((key, _primary_api(e), depth))
+    for variant, _ in _bfs_variants(e):
+      bfs_units.append((key, _primary_api(e), depth, variant))
   ctx.rule = (
       'every catalogue entry (accumulator x configuration): (A) states from '
       'every dataset of 0..2 alphabet rows; every multiset of k<=K states x '
       'every bracketing x every permutation (K=3 quick, 4 thorough), identity '
       'laws for every state on both sides, operand snapshot + later add on '
       'either side for every ordered pair of states x 2 batches, through both '
-      'APIs; (B) BFS to depth D (4 quick, 5 thorough) over {x.add(b1), '
-      'x.add(b2), y.add(b1), y.add(b2), x.merge(y), y.merge(x), x.result(), '
-      'y.result()} on two live accumulators (primary API), states rebuilt by '
-      'replay and deduplicated by structural fingerprint; non-trivial = at '
-      'least two non-empty states; distinct = distinct (entry, api, law, '
-      'datasets, tree) resp. (entry, history)')
+      'APIs; plus the null states of the entry (empty in one component, not in '
+      'another: E = add of one empty batch where the domain has empty batches, '
+      'N1/N2 = 1/2 null rows only - rows that advance a counter/denominator '
+      'but not the main table: too-short / letterless texts, all-NaN rows, '
+      'rankings without hit, out-of-range or zero-weight values, zeros, '
+      'key-less items): identity laws on both sides; operand snapshot + later '
+      'add (b1, b2, null batch) for every ordered pair (null state, any state) '
+      'and (any state, null state); every k=2 multiset {null state, any '
+      'state}; every k=3 multiset with >=1 null state over null states + '
+      'states of <=1 row (thorough: + states of <=2 rows over the first two '
+      'alphabet rows); thorough k=4: >=1 of E, N1 + states of <=1 row over the '
+      'first two alphabet rows; (B) BFS to depth D (4 quick, 5 thorough) over '
+      '{x.add(b1), x.add(b2), y.add(b1), y.add(b2), x.merge(y), y.merge(x), '
+      'x.result(), y.result()} on two live accumulators (primary API), states '
+      'rebuilt by replay and deduplicated by structural fingerprint; repeated '
+      'with b2 := one null row (entries with null rows) and with b2 := the '
+      'empty batch (entries with empty batches); non-trivial = at least two '
+      'non-fresh states; distinct = distinct (entry, api, law, datasets, '
+      'tree) resp. (entry, batch variant, history)')
   ctx.assumptions += [
       'small-scope hypothesis: states of <= 2 rows, <= K operands, histories '
-      'of <= D operations, two fixed batches b1 (1 row) and b2 (2 rows)',
+      'of <= D operations, two fixed batches b1 (1 row) and b2 (2 rows; or '
+      'one null row; or no row); <= 2 null rows per entry, chosen by reading '
+      'each add()/merge() (catalogue: Entry.null_rows); entries whose every '
+      'row lands in the one table (Counter, samplers, value accumulators, '
+      'MinMaxAndCount, confusion-matrix families) have no null rows',
       'same domain preconditions as C01 (explicit vocabulary for macro, '
       'explicit histogram range/edges, non-negative MinMaxAndCount data, '
       'non-empty rankings)',
@@ -453,6 +563,10 @@ def run(ctx):
   ctx.notes['catalogue_entries'] = len(cat)
   ctx.notes['bfs_depth'] = depth
   ctx.notes['max_operands'] = kmax
+  ctx.notes['entries_with_null_rows'] = sum(
+      1 for e in cat.values() if e.null_rows)
+  ctx.notes['entries_with_empty_batch_state'] = sum(
+      1 for e in cat.values() if e.empty_batch_ok)
 
 
 def replay(ctx, data):
@@ -465,6 +579,7 @@ def replay(ctx, data):
   elif r['kind'] == 'identity':
     check_identity(ctx, e, d, tup(r['dataset']))
   elif r['kind'] == 'pair':
-    check_pair(ctx, e, d, tup(r['d1']), tup(r['d2']), _bfs_batches(e))
+    check_pair(ctx, e, d, tup(r['d1']), tup(r['d2']))
   else:
-    bfs(ctx, e, d, 0, only_history=tup(r['history']))
+    bfs(ctx, e, d, 0, only_history=tup(r['history']),
+        variant=r.get('variant', 'base'))
